@@ -1074,6 +1074,28 @@ TARGETS.append(dict(
     alias="def readFirstLine (line : Bytes) : Option (Dir × Nat) := (P0f.readFirstLine line).map fun r => (if r.1 then Dir.req else Dir.resp, r.2)\n",
 ))
 
+def _extract_lines(fn, args, kw, env):
+    # copy_buffer(buffer).maybe_extract_lines(): h11's receive buffer on a copy of the payload - None while the head is incomplete,
+    # else the lines before the blank line (bound to the model's extractLines, not printed)
+    if args or kw:
+        raise NotTranslatable("maybe_extract_lines call shape")
+    return ("(extractLines data)", "Opt:List:Bytes")
+
+
+TARGETS.append(dict(
+    module="pyp0f.net.layers.http.read", func="read_payload", file="ReadPayload", lean="readPayload",
+    import_="P0f.Generated.Logic.ReadHeaders\nimport P0f.Generated.Logic.ReadFirstLine", open="P0f P0f.Py",
+    pyparams=["buffer"], params=[("data", "Bytes")], ret="Opt:Tuple:Enum:Dir,Nat,List:Rec:Hdr", lean_ret="Option (Dir × Nat × List Hdr)",
+    env={"buffer": ("data", "Bytes")}, bytes_elem="Char", raises={"PacketError": "none"},
+    lean_types={"Bytes": "Bytes", "Rec:Hdr": "Hdr"},
+    calls={"copy_buffer(buffer).maybe_extract_lines": _extract_lines,
+           "read_first_line": opt_call("P0f.Gen.readFirstLine", ["Bytes"], "Tuple:Enum:Dir,Nat"),
+           "read_headers": opt_call("P0f.Gen.readHeaders", ["List:Bytes"], "List:Rec:Hdr")},
+    alias="def readPayload (data : Bytes) : Option (Dir × Nat × List Hdr) :=\n"
+          "  match P0f.extractLines data with\n  | none => none\n  | some [] => none\n"
+          "  | some (first :: rest) => (P0f.Gen.readFirstLine first).bind fun r => (P0f.Gen.readHeaders rest).map fun hs => (r.1, r.2, hs)\n",
+))
+
 # ---------------------------------------------------------------------------------------------- C18: the writers
 TARGETS.append(dict(
     module="pyp0f.net.layers.tcp.options", func="TCPOptions.dump", file="DumpLayout", lean="dumpLayout", import_="P0f.Model.TcpOptions", open="P0f",
